@@ -13,6 +13,7 @@ from corankco.algorithms.pickaperm.pickaperm import PickAPerm
 
 
 class Share(Suite):
+    scribbled_rate = 0.1     # share of the cases where the caller scribbled on what the read accessors returned (algos.scribble)
     seasoned_rate = 0.12     # share of the cases run on algorithm objects that have served before (algos.seasoned)
     names_rate, past_rate = 0.08, 0.08
     """the statement itself, on penalties of a fine dyadic grid (tie penalty 0.5 + 2^-17 ...): local optima reached from different
